@@ -55,6 +55,7 @@ static int gnutls_sign_sha_hmac(jwt_t *jwt, char **out, unsigned int *len,
 	if (*out == NULL)
 		return 1; // LCOV_EXCL_LINE
 
+	JWT_VERIF_PRIMITIVE("gnutls:hmac", jwt);
 	if (gnutls_hmac_fast(alg, key, key_len, str, str_len, *out)) {
 		// LCOV_EXCL_START
 		jwt_freemem(*out);
@@ -179,6 +180,7 @@ static int gnutls_sign_sha_pem(jwt_t *jwt, char **out, unsigned int *len,
 		SIGN_ERROR("Alg mismatch with signing key"); // LCOV_EXCL_LINE
 	}
 
+	JWT_VERIF_PRIMITIVE("gnutls:sign", jwt);
 	if (gnutls_privkey_sign_data(privkey, alg, flags,
                                 &body_dat, &sig_dat))
 		SIGN_ERROR("Failed to sign token"); // LCOV_EXCL_LINE
@@ -377,6 +379,7 @@ static int gnutls_verify_sha_pem(jwt_t *jwt, const char *head,
 			VERIFY_ERROR("Irregular sig_len for ECDHA"); // LCOV_EXCL_LINE
 		}
 
+		JWT_VERIF_PRIMITIVE("gnutls:verify", jwt);
 		if (gnutls_encode_rs_value(&sig_dat, &r, &s) ||
 		    gnutls_pubkey_verify_data2(pubkey, alg, 0, &data, &sig_dat))
 			ret = 1; // LCOV_EXCL_LINE
@@ -393,6 +396,7 @@ static int gnutls_verify_sha_pem(jwt_t *jwt, const char *head,
 		sig_dat.size = sig_len;
 		sig_dat.data = sig;
 
+		JWT_VERIF_PRIMITIVE("gnutls:verify", jwt);
 		if (gnutls_pubkey_verify_data2(pubkey, alg, 0, &data, &sig_dat))
 			VERIFY_ERROR("Failed to verify signature"); // LCOV_EXCL_LINE
 	}
